@@ -55,6 +55,7 @@ type UOpts struct {
 	Foreign   bool // some layers carry a foreign / non-distributable layer media type
 	MTWild    bool // some index entries list a child manifest under a media type that is no manifest type at all
 	OddAT     bool // artifact types that contain + & = % #
+	ChildName bool // some child descriptors inside indexes carry the annotation org.opencontainers.image.ref.name with the value of one of the universe's tags (image exporters write such entries); it names nothing in the repository
 	HotAnn    bool // some artifacts carry the annotation org.opencontainers.image.ref.name (a standard key, a tag in a layout index)
 	Tags      []string
 	Tag       string // unique content marker
@@ -87,6 +88,7 @@ type MkOpt struct {
 	Bare   bool              // leave the mediaType field out of the body
 	ListAs map[string]string // index: child digest -> media type to list it under
 	Resize map[string]int    // index: child digest -> bytes to add to the size it is listed with
+	Names  map[string]string // index: child digest -> value of the annotation org.opencontainers.image.ref.name on its descriptor
 }
 
 // MkImageX is MkImage with variations.
@@ -143,7 +145,11 @@ func MkIndexX(name, alg, mt string, children []*Man, subject, at string, ann map
 			}
 			listed[c.D] = as
 		}
-		ms = append(ms, descJSON(cmt, c.D, len(c.Raw)+o.Resize[c.D]))
+		dj := descJSON(cmt, c.D, len(c.Raw)+o.Resize[c.D])
+		if n := o.Names[c.D]; n != "" {
+			dj["annotations"] = map[string]string{"org.opencontainers.image.ref.name": n}
+		}
+		ms = append(ms, dj)
 		refs = append(refs, c.D)
 	}
 	m := map[string]any{"schemaVersion": 2, "mediaType": mt, "manifests": ms}
@@ -280,6 +286,16 @@ func GenUniverse(r *rand.Rand, o UOpts) *Universe {
 						mo.Resize = map[string]int{}
 					}
 					mo.Resize[c.D] = 1 + r.Intn(9)
+				}
+			}
+		}
+		if o.ChildName {
+			for _, c := range ch {
+				if r.Intn(2) == 0 {
+					if mo.Names == nil {
+						mo.Names = map[string]string{}
+					}
+					mo.Names[c.D] = u.Tags[r.Intn(len(u.Tags))]
 				}
 			}
 		}
